@@ -30,7 +30,7 @@ pub fn judge_phrase(phrase: &str, cls: &mut Classifier) -> Verdict {
     let case_variant = tokens
         .iter()
         .any(|t| bip39::lookup(t).is_none() && bip39::lookup(&t.to_lowercase()).is_some());
-    let got = crate::isolate::inflight("mnemonic", phrase.as_bytes(), "generated", || catch(|| Mnemonic::from_phrase(phrase).map(|m| (m.to_phrase(), m.to_string(), m.mnemonic_length()))));
+    let got = crate::isolate::inflight("mnemonic", phrase.as_bytes(), "generated", || catch(|| Mnemonic::from_phrase(phrase).map(|m| (m.to_phrase(), m.to_string(), m.mnemonic_length() as usize))));
     let got = match got {
         Ok(g) => g,
         Err(p) => {
